@@ -1,5 +1,6 @@
 import JSight.Model.ScanTypes
 import JSight.Model.Unescape
+import JSight.Model.Utf8
 import JSight.Gen.ScannerTable
 import JSight.Gen.DirTables
 /-!
@@ -289,5 +290,14 @@ def lexAll (d : Src) (o : Oracle) : Nat â†’ Sc â†’ List Lexeme â†’ List Lexeme Ã
     | .error s => (acc.reverse, some s, sc)
     | .ok (none, sc') => (acc.reverse, none, sc')
     | .ok (some lex, sc') => lexAll d o n sc' (lex :: acc)
+
+/-- `Scanner.Next` as the core drives it over a whole file: the encoding check of the first call
+(a file that is not valid UTF-8 is a diagnostic at the first invalid byte), then `lexAll`. -/
+def scanFile (content : Bytes) (o : Oracle) : List Lexeme Ã— Option Stop Ã— Sc :=
+  match firstInvalidUTF8 content with
+  | some i => ([], some (.diag i), Sc.init)
+  | none =>
+    let d := Src.ofArray content.toArray
+    lexAll d o (d.size + 2) Sc.init []
 
 end JSight
